@@ -117,7 +117,10 @@ def run(ctx):
     for i in range(ctx.scale(150, 5000)):
         nf = rng.randint(1, 4)
         cases.append([ctx.seed * 100000 + i, rng.choice([1, 2, 3, 4, 8, 16]), rng.choice([1, 1, 2, 3, 4, 8]), rng.choice([0, 1, 2, 7, 50, 300]), nf] + [rng.randrange(3) for _ in range(nf)])
-    ctx.rules.append("pipeline: all filter-mode sequences of length 1-4, token limits 1-8, 0-300 items, arena concurrency 1-16, seeded per-item stage delays, real threads; "
+    # directed: serial_in_order filters separated by stages where items overtake each other (parallel, serial_out_of_order): the common order must survive
+    for j, modes in enumerate([[2, 0, 1, 2], [2, 1, 2], [2, 1, 0, 2], [2, 0, 1, 0, 2], [2, 0, 2, 1, 2], [0, 2, 1, 2], [2, 0, 1, 2], [2, 1, 1, 2]] * ctx.scale(1, 6)):
+        cases.append([ctx.seed * 100000 + 90000 + j, [4, 8, 16][j % 3], [4, 8, 3][j % 3], [60, 200, 300][j % 3], len(modes)] + modes)
+    ctx.rules.append("pipeline: all filter-mode sequences of length 1-4 (plus directed ones where serial_in_order filters are separated by parallel / serial_out_of_order stages), token limits 1-8, 0-300 items, arena concurrency 1-16, seeded per-item stage delays, real threads; "
                      "predicate = each item through each filter once, serial exclusion, common order of serial_in_order filters, live items <= limit, nothing in flight at return")
     oracle_tie(ctx, "pipeline", exe, ["pipe"], cases, pipe_oracle, describe=pdesc, bucket=lambda c: "pipe filters=%d" % c[4], timeout=1500)
 
